@@ -442,7 +442,14 @@ class Interp:
         return alias.get(name) in chain
 
     def st_With(self, st, env):
-        raise Unsupported(f"with statement (line {st.lineno})")
+        # context managers: the body runs once; `as` binds the manager itself (what ExitStack,
+        # locks and files do).  Assumption (listed): __exit__ neither swallows exceptions nor
+        # touches modelled state.
+        for item in st.items:
+            v = self.eval(item.context_expr, env)
+            if item.optional_vars is not None:
+                self.assign(item.optional_vars, v, env)
+        self.exec_block(st.body, env)
 
     # ---- loops
     def _loop_spec(self, st):
@@ -994,6 +1001,8 @@ class Interp:
             key = f"model:{obj.model.name}.{name}"
             if key in self.reg.contracts:
                 return VBuiltin(key, _model_method(key), obj)
+            if key in self.reg.overrides:
+                return VBuiltin(key, self.reg.overrides[key], obj)
         if self.spec:
             raise Unsupported(f"attribute {name!r} of {obj!r} in spec")
         # hasattr-style miss
@@ -1023,6 +1032,8 @@ class Interp:
                             self.call(f.bind(obj), [v], {}, node)
                             return
             self.frame_write(obj, name)
+            if obj.model is not None and getattr(obj.model, "setters", None) and name in obj.model.setters:
+                v = obj.model.setters[name](self, obj, v)
             obj.fields[name] = v
             return
         if isinstance(obj, VExc):
